@@ -1203,8 +1203,10 @@ func aliasShape(op *OpDesc, c *Call) string {
 		}
 		bucket := "7..16"
 		switch n := len(c.P); {
+		case n > 512:
+			bucket = ">512"
 		case n > 256:
-			bucket = ">256"
+			bucket = "257..512"
 		case n > 64:
 			bucket = "65..256"
 		case n > 33:
